@@ -37,6 +37,9 @@ VALID_PROGRAMS = [
     "\"a\\n\\t\\\"\\\\\\u00e9\" + 'b\\'' + @\"c\"\"d\" + @'e''f'",
     "|||\n  text\n   more\n\n  end\n|||",
     "|||-\n  text\n|||",
+    # chomped and plain text blocks whose body ends in blank lines / consists of blank lines (only one final newline is chomped)
+    "|||-\n  text\n\n|||", "|||-\n  text\n\n\n|||", "|||\n  text\n\n|||", "|||-\n  a\n\n  b\n\n\n|||", "|||-\n\n  text\n\n|||",
+    "[|||-\n  x\n\n|||, |||\n  y\n\n\n|||]", "|||-\n\ttext\n\n|||",
     "1.5e10 + 1e-3 + 0.5 + 100 + 1_000",
     "a.b.c[1][2](3).d",
     "f(1)(2)[3].x {y: 1}",
